@@ -27,6 +27,9 @@ IN_BREAKING = ["img_missing", "img_empty", "img_garbage", "img_directory", "img_
                "right_list", "left_disp_missing"]
 IN_PRESERVING = ["nodata_nan_str", "nodata_nan_float", "nodata_int", "extras_null", "classif_ok", "segm_ok",
                  "mask_ok"]
+# fault-then-repair pairs: a path is named while nothing readable is there, later the same path holds a good file
+REPAIR_PAIRS = {"mask_path_missing": "mask_path_repaired", "img_path_garbage": "img_path_repaired",
+                "segm_path_missing": "segm_path_repaired"}
 
 
 # ---------------------------------------------------------------------------------------------------------------
@@ -214,6 +217,29 @@ def apply_in_op(op, inp, w, tmp, uid):
         inp["right"]["disp"] = [-2, 2]
     elif name == "left_disp_missing":
         inp["left"].pop("disp", None)
+    elif name == "mask_path_missing":
+        inp[side]["mask"] = os.path.join(tmp, f"shared_mask_{side}.tif")
+        if os.path.exists(inp[side]["mask"]):
+            os.remove(inp[side]["mask"])
+    elif name == "mask_path_repaired":
+        files.write_raster(os.path.join(tmp, f"shared_mask_{side}.tif"), np.zeros((rows, cols), dtype=np.uint8))
+        inp[side]["mask"] = os.path.join(tmp, f"shared_mask_{side}.tif")
+    elif name == "segm_path_missing":
+        inp[side]["segm"] = os.path.join(tmp, f"shared_segm_{side}.tif")
+        if os.path.exists(inp[side]["segm"]):
+            os.remove(inp[side]["segm"])
+    elif name == "segm_path_repaired":
+        files.write_raster(os.path.join(tmp, f"shared_segm_{side}.tif"), np.ones((rows, cols), dtype=np.int16))
+        inp[side]["segm"] = os.path.join(tmp, f"shared_segm_{side}.tif")
+    elif name == "img_path_garbage":
+        with open(os.path.join(tmp, f"shared_img_{side}.tif"), "wb") as f:
+            f.write(b"not yet an image " * 20)
+        inp[side]["img"] = os.path.join(tmp, f"shared_img_{side}.tif")
+    elif name == "img_path_repaired":
+        import shutil
+
+        shutil.copyfile(inp.get("_orig_img", {}).get(side, inp[side]["img"]), os.path.join(tmp, f"shared_img_{side}.tif"))
+        inp[side]["img"] = os.path.join(tmp, f"shared_img_{side}.tif")
     elif name == "nodata_nan_str":
         inp[side]["nodata"] = "NaN"
     elif name == "nodata_nan_float":
@@ -273,6 +299,14 @@ class C17:
             hist = [self.gen_ops(rnd, IN_BREAKING, IN_PRESERVING, 0.4) for _ in range(rnd.randint(2, 8))]
             worlds = [w]
             # alternate disparity forms across the history: integer pair / grid + null / grid + grid
+            if rnd.random() < 0.3:
+                # a fault that is repaired later in the same process, at the same path
+                fault = rnd.choice(sorted(REPAIR_PAIRS))
+                side = rnd.choice(["left", "right"])
+                i = rnd.randrange(len(hist))
+                hist.insert(i, [{"name": fault, "side": side}])
+                j = rnd.randint(i + 1, len(hist))
+                hist.insert(j, [{"name": REPAIR_PAIRS[fault], "side": side}])
             forms = [rnd.choice(["ints", "grid_null", "grid_grid"]) for _ in hist]
             return {"harness": "input-history", "world": w, "history": hist, "forms": forms}
         # command-line sweep
@@ -351,7 +385,7 @@ class C17:
                 for op in sorted(ops, key=lambda o: o["name"] in IN_BREAKING):
                     if apply_in_op(op, inp, w, tmp, f"h{i}"):
                         applied.append(op["name"])
-                        broken = broken or op["name"] in IN_BREAKING
+                        broken = broken or op["name"] in IN_BREAKING or op["name"] in REPAIR_PAIRS
                 inp.pop("_orig_img", None)
                 try:
                     cc.check_input_section({"input": copy.deepcopy(inp)})
@@ -362,7 +396,7 @@ class C17:
                 cov[exp] = cov.get(exp, 0) + 1
                 cov["input_section_cases"] = cov.get("input_section_cases", 0) + 1
                 for a in applied:
-                    if a in IN_BREAKING:
+                    if a in IN_BREAKING or a in REPAIR_PAIRS:
                         faults["in:" + a] = faults.get("in:" + a, 0) + 1
                 shapes.append(harness.jdump(["in", form, sorted(applied)]))
                 if got.split(":")[0] != exp:
@@ -371,7 +405,9 @@ class C17:
                                  "index": i, "earlier_forms": sc["forms"][:i]})
             return {"violations": viol, "cov": cov, "shapes": shapes, "digest": harness.jdump(sc["forms"]),
                     "faults": faults, "steps": len(sc["history"]), "evaluations": len(sc["history"]),
-                    "probes": {"forms_alternated": int(len(set(sc["forms"])) >= 2)}}
+                    "probes": {"forms_alternated": int(len(set(sc["forms"])) >= 2),
+                               "fault_then_repair_at_same_path": int(any(o["name"] in REPAIR_PAIRS.values()
+                                                                         for ops in sc["history"] for o in ops))}}
         finally:
             files.cleanup(tmp)
 
